@@ -565,6 +565,11 @@ fn check(sc: &Scen, ctx: &Ctx, log: &[Ev]) -> Vec<Fail> {
                 // no other write/removal of the key may overlap it (then the order is not determined)
                 let overlapped = log.iter().any(|o| !std::ptr::eq(o, e) && o.thread != 99 && matches!(&o.op, Op::Insert(kk, _, _) | Op::Remove(kk) | Op::Invalidate(kk) if *kk == k) && o.ret > e.call);
                 if !overlapped && !dump.iter().any(|d| d.0 == k && *d.1 == *v) {
+                    // the value is gone although nobody removed it and it cannot have expired: if the listener was not
+                    // told about it either, a removal happened silently (or was reported for another value)
+                    if sc.oracle.contains("listener") && !ctx.notes.lock().unwrap().iter().any(|(nk, nv, _)| *nk == k && nv == v) {
+                        out.push(Fail { prop: "C16", rule: "removal_not_notified", msg: format!("value #{} of key {} was removed by the cache (it is not resident, no user operation removed it) but the listener was never told about it; notifications {:?}", v, k, ctx.notes.lock().unwrap().clone()) });
+                    }
                     out.push(Fail { prop: "C12", rule: "live_entry_missing", msg: format!("insert({}, #{}) completed last and the entry cannot have expired (written at the current virtual time), yet it is not resident at quiescence in an unbounded cache; resident {:?}; notifications {:?}", k, v, dump.iter().map(|d| (d.0, *d.1)).collect::<Vec<_>>(), ctx.notes.lock().unwrap().clone()) });
                 }
             }
